@@ -170,6 +170,7 @@ func runC01(r *core.Run) {
 	// (d) edit neighbourhood of the spec examples under the suite's fuzz configuration and a safe CJK one
 	for _, cn := range []string{"all+autoid+attr+unsafe+xhtml", "all+cjk"} {
 		nbhdSub(r, "nbhd-spec/"+cn, core.MustCfg(cn), func(s *core.Sub, cv *core.Conv, w []byte) { c01Case(s, cv, w) })
+		nestSub(r, "nesting/"+cn, core.MustCfg(cn), core.Pick(r, 3, 4), func(s *core.Sub, cv *core.Conv, w []byte) { c01Case(s, cv, w) })
 	}
 
 	// (c) deep-nesting families in worker subprocesses (a stack overflow or OOM kills the worker, not the check)
